@@ -135,6 +135,20 @@ CLAIMED["C16"] = (
     "DESIGN.md §3 C16",
     "Partial claim (HTML-safety of tojson only).  serde_json is trusted to produce the string that is filtered.")
 
+CLAIMED["C02"] = (
+    "who-may-write rule for Output + guard classification of every raw write in the escape choke point + reviewed inventory / control-dependence rule for safe-string constructors with a raw-accessor flow lint + byte-set agreement of needs_html_escaping / HtmlEscape",
+    "Static rule check: only the reviewed choke-point functions write to Output and the interpreter's Emit handler "
+    "reaches the sink only through them; every write in write_escaped/write_with_html_escaping is an HtmlEscape "
+    "rendering or dominated by one of seven enumerated safe-content conditions; every from_safe_string site is a "
+    "reviewed safe-marking function, or control-dependent on is_safe()/StringInput.safe/auto-escape-on, and inside "
+    "such a branch raw text of a value whose safety was not tested on that path is never used as inserted content; "
+    "captures are marked safe only when auto-escape is on; the fast-path byte test covers every byte the escaper "
+    "escapes, which covers < > & \" ', all within the range pre-check, and replacements are free of raw "
+    "metacharacters.  This decides the escaping skeleton (no raw path to the sink, no unjustified safe-marking) for "
+    "all templates and contexts; the text transformation of each filter and custom formatters are not decided.",
+    "DESIGN.md §3 C02",
+    "The speedups (v_htmlescape) feature is outside the analysed configurations.  Restoration of the auto-escape mode after scoped constructs is C05.")
+
 NOT_APPLICABLE = {
 }
 
